@@ -3,7 +3,7 @@
 use crate::ctx::{hex_short, lc, Case, Ctx, Tier};
 use crate::gen;
 use crate::oracle::{classify, is_window, Out};
-use crate::refenc::{self, ADch, ADtlsBody, ADtlsHs, ADtlsMsg, ADtlsRecordHdr, W};
+use crate::refenc::{self, ADch, ADtlsBody, ADtlsHs, ADtlsMsg, ADtlsRecordHdr, ASh, W};
 use crate::rng::Rng;
 use crate::visit::veq;
 use serde_json::json;
@@ -386,8 +386,48 @@ pub fn run(ctx: &mut Ctx) {
             for &length in &lengths {
                 for &off in &offs {
                     if fl > length && off == 0 {
-                        // fragment_length > length without offset: unjudged
+                        // fragment_length > length without offset: which body this is is not judged, but the five header
+                        // fields are returned verbatim and exactly fragment_length bytes are consumed whenever it is accepted
                         ctx.unjudged("fraglen>length");
+                        for ty in [1u8, 2, 3, 11, 14, 16, 20, 99] {
+                            let seq = rng.u16();
+                            let mut input = vec![ty, (length >> 16) as u8, (length >> 8) as u8, length as u8, (seq >> 8) as u8, seq as u8, 0, 0, 0, (fl >> 16) as u8, (fl >> 8) as u8, fl as u8];
+                            // bodies that parse for the structured types when read from the fragment bytes
+                            let body: Vec<u8> = match ty {
+                                1 => { let c = ADch { version: 0xfefd, random: rng.bytes(32), sid: vec![], cookie: vec![], ciphers: vec![0xc02f], comp: vec![0], ext: None }; ADtlsHs::whole(0, ADtlsBody::ClientHello(c)).to_bytes()[12..].to_vec() }
+                                2 => { let h = ASh { version: 0xfefd, random: rng.bytes(32), sid: vec![], cipher: 0xc02f, comp: 0, ext: None }; ADtlsHs::whole(0, ADtlsBody::ServerHello(h)).to_bytes()[12..].to_vec() }
+                                3 => vec![0xfe, 0xfd, 0],
+                                11 => vec![0, 0, 0],
+                                _ => data.clone(),
+                            };
+                            if ty <= 11 && ty != 14 {
+                                let bl = body.len() as u32;
+                                if bl <= length {
+                                    continue;
+                                }
+                                input[9] = (bl >> 16) as u8;
+                                input[10] = (bl >> 8) as u8;
+                                input[11] = bl as u8;
+                            }
+                            let fl_used = u32::from_be_bytes([0, input[9], input[10], input[11]]) as usize;
+                            if body.len() != fl_used {
+                                continue;
+                            }
+                            input.extend_from_slice(&body);
+                            input.extend_from_slice(&[0xEE, 0xEE]);
+                            let r = parse_dtls_message_handshake(&input);
+                            ctx.eval();
+                            ctx.count("hs.overlong-fragment-length");
+                            if let Ok((rem, DTLSMessage::Handshake(h))) = &r {
+                                let ok = h.msg_type.0 == ty && h.length == length && h.message_seq == seq && h.fragment_offset == 0 && h.fragment_length as usize == fl_used && rem.len() == 2;
+                                if !ok {
+                                    ctx.violation(
+                                        "c10:handshake:header-not-verbatim:fragment_length-exceeds-length".into(),
+                                        json!({"type": ty, "length": length, "fragment_length": fl_used, "returned": format!("type={} length={} seq={} offset={} fragment_length={} remainder={}", h.msg_type.0, h.length, h.message_seq, h.fragment_offset, h.fragment_length, rem.len()), "input_hex": hex_short(&input)}),
+                                    );
+                                }
+                            }
+                        }
                         continue;
                     }
                     let m = ADtlsHs { length, message_seq: rng.u16(), fragment_offset: off, body: ADtlsBody::Fragment { ty: *rng.pick(&[1u8, 2, 11, 14, 16, 20, 99]), data: data.clone() } };
